@@ -20,7 +20,7 @@ from pathlib import Path
 
 from harness.tie_gen import HEAD, clist, cstr, cz
 
-GEN = Path(__file__).resolve().parents[2] / "coq" / "gen" / "AppendGen.v"
+GEN = Path(os.environ.get("TIE_APPEND_GEN") or (Path(__file__).resolve().parents[2] / "coq" / "gen" / "AppendGen.v"))
 
 DEFS = """From TV Require Import gen.IRAst gen.Names spec.IRSem spec.IRCompare gen.AppendGen.
 Definition tensor_eqb (a b : Tensor) : bool :=
